@@ -80,9 +80,17 @@ package graphql
 
 // ---- planned field resolution (C04, C20, C06) -------------------------------------
 
+// (verified, was trusted with a frame that overlooked the context update)
 //@ func handleExtensionsResolveFieldDidStart
-//@   trusted
-//@   assigns nothing
+//@   props C17 C09:safety
+//@   nosafety
+//@   requires p != nil
+//@   opt invoke.ResolveFieldDidStart=maypanic
+//@   opt invoke.Name=pure
+//@   nopanic
+//@   assigns class:executionContext.Context
+//@   ensures result1 != nil
+//@   loop 1 invariant fresh(fs) && fresh(errs)
 
 //@ func DefaultResolveFn
 //@   trusted
@@ -90,11 +98,11 @@ package graphql
 
 //@ func completePlannedValueCatchingError
 //@   trusted
-//@   assigns class:executionContext.Errors, class:FormattedError, class:M|*graphql.Object|*graphql.selectionPlan, class:graphql.selectionPlan, class:graphql.fieldPlan, class:M|string|int, class:M|string|bool, class:E|*graphql.fieldPlan, class:E|*ast.Field, class:M|string|interface, class:E|interface, class:graphql.fragmentGate, class:graphql.fragmentTrace, class:E|graphql.collectStep, class:M|string|*graphql.fragmentTrace, class:E|graphql.fragmentSpreadEdge, class:M|string|*graphql.fragmentGate, class:E|func, class:graphql.Plan.expanding, class:M|*ast.Field|bool
+//@   assigns class:executionContext.Errors, class:executionContext.Context, class:FormattedError, class:M|*graphql.Object|*graphql.selectionPlan, class:graphql.selectionPlan, class:graphql.fieldPlan, class:M|string|int, class:M|string|bool, class:E|*graphql.fieldPlan, class:E|*ast.Field, class:M|string|interface, class:E|interface, class:graphql.fragmentGate, class:graphql.fragmentTrace, class:E|graphql.collectStep, class:M|string|*graphql.fragmentTrace, class:E|graphql.fragmentSpreadEdge, class:M|string|*graphql.fragmentGate, class:E|func, class:graphql.Plan.expanding, class:M|*ast.Field|bool
 
 //@ func resolvePlannedField
-//@   assigns class:executionContext.Errors, class:FormattedError, class:M|*graphql.Object|*graphql.selectionPlan, class:graphql.selectionPlan, class:graphql.fieldPlan, class:M|string|int, class:M|string|bool, class:E|*graphql.fieldPlan, class:E|*ast.Field, class:M|string|interface, class:E|interface, class:graphql.fragmentGate, class:graphql.fragmentTrace, class:E|graphql.collectStep, class:M|string|*graphql.fragmentTrace, class:E|graphql.fragmentSpreadEdge, class:M|string|*graphql.fragmentGate, class:E|func, class:graphql.Plan.expanding, class:M|*ast.Field|bool
-//@   props C04 C20 C06
+//@   props C04 C20 C06 C17
+//@   assigns class:executionContext.Errors, class:executionContext.Context, class:FormattedError, class:M|*graphql.Object|*graphql.selectionPlan, class:graphql.selectionPlan, class:graphql.fieldPlan, class:M|string|int, class:M|string|bool, class:E|*graphql.fieldPlan, class:E|*ast.Field, class:M|string|interface, class:E|interface, class:graphql.fragmentGate, class:graphql.fragmentTrace, class:E|graphql.collectStep, class:M|string|*graphql.fragmentTrace, class:E|graphql.fragmentSpreadEdge, class:M|string|*graphql.fragmentGate, class:E|func, class:graphql.Plan.expanding, class:M|*ast.Field|bool
 //@   nosafety
 //@   requires eCtx != nil && fp != nil && fp.fieldDef != nil
 //@   opt callback.resolveFn=maypanic
@@ -108,6 +116,13 @@ package graphql
 //@   at[C20,C06,C12] call resolveFn: assert fresh(arg0.Args) || fp.args.hasVariables
 //@   ensures[C04] resolveFnError != nil ==> result == nil
 //@   ensures[C04] ok
+// C17: the resolve phase the extensions started for this field is finished exactly once on every way out
+// (resolver returned, returned an error, or panicked; the field error absorbed here or propagated to a
+// non-null parent), on the normal way with the resolver's own outcome.
+//@   ensures[C17] calls("handleExtensionsResolveFieldDidStart") == calls("finishFn")
+//@   panics[C17] calls("handleExtensionsResolveFieldDidStart") == calls("finishFn")
+//@   ensures[C17] len(old(eCtx.Schema.extensions)) > 0 ==> calls("handleExtensionsResolveFieldDidStart") == 1
+//@   at[C17] call finishFn: assert arg0 == result && arg1 == resolveFnError && calls("resolveFn") == 1
 
 // ---- planned execution walk (C01, C04, C13, C20) ------------------------------------
 
@@ -116,7 +131,7 @@ package graphql
 //@   functional
 
 //@ func executePlannedSelection
-//@   assigns class:executionContext.Errors, class:FormattedError, class:M|*graphql.Object|*graphql.selectionPlan, class:graphql.selectionPlan, class:graphql.fieldPlan, class:M|string|int, class:M|string|bool, class:E|*graphql.fieldPlan, class:E|*ast.Field, class:M|string|interface, class:E|interface, class:graphql.fragmentGate, class:graphql.fragmentTrace, class:E|graphql.collectStep, class:M|string|*graphql.fragmentTrace, class:E|graphql.fragmentSpreadEdge, class:M|string|*graphql.fragmentGate, class:E|func, class:graphql.Plan.expanding, class:M|*ast.Field|bool
+//@   assigns class:executionContext.Errors, class:executionContext.Context, class:FormattedError, class:M|*graphql.Object|*graphql.selectionPlan, class:graphql.selectionPlan, class:graphql.fieldPlan, class:M|string|int, class:M|string|bool, class:E|*graphql.fieldPlan, class:E|*ast.Field, class:M|string|interface, class:E|interface, class:graphql.fragmentGate, class:graphql.fragmentTrace, class:E|graphql.collectStep, class:M|string|*graphql.fragmentTrace, class:E|graphql.fragmentSpreadEdge, class:M|string|*graphql.fragmentGate, class:E|func, class:graphql.Plan.expanding, class:M|*ast.Field|bool
 //@   props C20 C13 C01
 //@   nosafety
 //@   requires eCtx != nil
@@ -174,7 +189,7 @@ package graphql
 //@   assigns nothing
 
 //@ func completePlannedListValue
-//@   assigns class:executionContext.Errors, class:FormattedError, class:M|*graphql.Object|*graphql.selectionPlan, class:graphql.selectionPlan, class:graphql.fieldPlan, class:M|string|int, class:M|string|bool, class:E|*graphql.fieldPlan, class:E|*ast.Field, class:M|string|interface, class:E|interface, class:graphql.fragmentGate, class:graphql.fragmentTrace, class:E|graphql.collectStep, class:M|string|*graphql.fragmentTrace, class:E|graphql.fragmentSpreadEdge, class:M|string|*graphql.fragmentGate, class:E|func, class:graphql.Plan.expanding, class:M|*ast.Field|bool
+//@   assigns class:executionContext.Errors, class:executionContext.Context, class:FormattedError, class:M|*graphql.Object|*graphql.selectionPlan, class:graphql.selectionPlan, class:graphql.fieldPlan, class:M|string|int, class:M|string|bool, class:E|*graphql.fieldPlan, class:E|*ast.Field, class:M|string|interface, class:E|interface, class:graphql.fragmentGate, class:graphql.fragmentTrace, class:E|graphql.collectStep, class:M|string|*graphql.fragmentTrace, class:E|graphql.fragmentSpreadEdge, class:M|string|*graphql.fragmentGate, class:E|func, class:graphql.Plan.expanding, class:M|*ast.Field|bool
 //@   props C20 C18 C04
 //@   nosafety
 //@   requires eCtx != nil && returnType != nil
@@ -183,7 +198,7 @@ package graphql
 //@   loop 1 invariant fresh(completedResults)
 
 //@ func completePlannedObjectValue
-//@   assigns class:executionContext.Errors, class:FormattedError, class:M|*graphql.Object|*graphql.selectionPlan, class:graphql.selectionPlan, class:graphql.fieldPlan, class:M|string|int, class:M|string|bool, class:E|*graphql.fieldPlan, class:E|*ast.Field, class:M|string|interface, class:E|interface, class:graphql.fragmentGate, class:graphql.fragmentTrace, class:E|graphql.collectStep, class:M|string|*graphql.fragmentTrace, class:E|graphql.fragmentSpreadEdge, class:M|string|*graphql.fragmentGate, class:E|func, class:graphql.Plan.expanding, class:M|*ast.Field|bool
+//@   assigns class:executionContext.Errors, class:executionContext.Context, class:FormattedError, class:M|*graphql.Object|*graphql.selectionPlan, class:graphql.selectionPlan, class:graphql.fieldPlan, class:M|string|int, class:M|string|bool, class:E|*graphql.fieldPlan, class:E|*ast.Field, class:M|string|interface, class:E|interface, class:graphql.fragmentGate, class:graphql.fragmentTrace, class:E|graphql.collectStep, class:M|string|*graphql.fragmentTrace, class:E|graphql.fragmentSpreadEdge, class:M|string|*graphql.fragmentGate, class:E|func, class:graphql.Plan.expanding, class:M|*ast.Field|bool
 //@   props C20 C04
 //@   nosafety
 //@   requires eCtx != nil && returnType != nil
@@ -194,7 +209,7 @@ package graphql
 //@   at[C20] call abstractAlternative: assert fp.sub == nil && fp.plannedOnDemand && arg1 == fp && arg2 == returnType
 
 //@ func completePlannedAbstractValue
-//@   assigns class:executionContext.Errors, class:FormattedError, class:M|*graphql.Object|*graphql.selectionPlan, class:graphql.selectionPlan, class:graphql.fieldPlan, class:M|string|int, class:M|string|bool, class:E|*graphql.fieldPlan, class:E|*ast.Field, class:M|string|interface, class:E|interface, class:graphql.fragmentGate, class:graphql.fragmentTrace, class:E|graphql.collectStep, class:M|string|*graphql.fragmentTrace, class:E|graphql.fragmentSpreadEdge, class:M|string|*graphql.fragmentGate, class:E|func, class:graphql.Plan.expanding, class:M|*ast.Field|bool
+//@   assigns class:executionContext.Errors, class:executionContext.Context, class:FormattedError, class:M|*graphql.Object|*graphql.selectionPlan, class:graphql.selectionPlan, class:graphql.fieldPlan, class:M|string|int, class:M|string|bool, class:E|*graphql.fieldPlan, class:E|*ast.Field, class:M|string|interface, class:E|interface, class:graphql.fragmentGate, class:graphql.fragmentTrace, class:E|graphql.collectStep, class:M|string|*graphql.fragmentTrace, class:E|graphql.fragmentSpreadEdge, class:M|string|*graphql.fragmentGate, class:E|func, class:graphql.Plan.expanding, class:M|*ast.Field|bool
 //@   props C20 C04 C01
 //@   nosafety
 //@   requires eCtx != nil && fp != nil && (eCtx.plan == nil || !held(&eCtx.plan.abstractMu))
@@ -237,7 +252,7 @@ package graphql
 //@ func handleExtensionsValidationDidStart$2
 //@   props C17 C09:safety
 //@   nosafety
-//@   opt callback.fn=maypanic
+//@   opt callback.finishFn=maypanic
 //@   nopanic
 
 //@ func handleExtensionsExecutionDidStart
@@ -250,13 +265,13 @@ package graphql
 //@ func handleExtensionsExecutionDidStart$2
 //@   props C17 C09:safety
 //@   nosafety
-//@   opt callback.fn=maypanic
+//@   opt callback.finishFn=maypanic
 //@   nopanic
 
 //@ func handleExtensionsResolveFieldDidStart$2
 //@   props C17 C09:safety
 //@   nosafety
-//@   opt callback.fn=maypanic
+//@   opt callback.finishFn=maypanic
 //@   nopanic
 
 //@ func addExtensionResults
@@ -272,6 +287,12 @@ package graphql
 //@   nosafety
 //@   at return: assert calls("handleExtensionsParseDidStart") == calls("parseFinishFn")
 //@   at return: assert calls("handleExtensionsValidationDidStart") == calls("validationFinishFn")
+// ... and each phase is finished with the outcome of that phase: the parser's error (nil on success),
+// the validation errors (none when the document is valid)
+//@   at call parseFinishFn#2: assert calls("Parse") == 1 && arg0 == lastresult("Parse", 1) && !isnil(arg0)
+//@   at call parseFinishFn#3: assert calls("Parse") == 1 && arg0 == lastresult("Parse", 1) && isnil(arg0)
+//@   at call validationFinishFn#2: assert calls("ValidateDocument") == 1 && arg0 == lastresult("ValidateDocument").Errors
+//@   at call validationFinishFn#3: assert calls("ValidateDocument") == 1 && arg0 == lastresult("ValidateDocument").Errors
 
 //@ func ExecutePlan
 //@   props C17
@@ -1089,7 +1110,6 @@ package graphql
 //@   props C06 C13
 //@   nosafety
 //@   assigns class:fingerprintWriter.visited, class:M|string|bool
-//@   opt invoke.Write=pure
 //@   loop 1 ensures typeis(isel, "*ast.Field") && as(isel, "*ast.Field").Alias != nil && as(isel, "*ast.Field").Name != nil ==> calls("writeString") >= atloop(1, calls("writeString")) + 2
 //@   loop 1 ensures typeis(isel, "*ast.FragmentSpread") && as(isel, "*ast.FragmentSpread").Name != nil ==> calls("writeFragmentBody") == atloop(1, calls("writeFragmentBody")) + 1
 //@   at call writeFragmentBody: assert arg1 == s.Name.Value
